@@ -77,14 +77,11 @@ def handle (args : List String) : String :=
       else if op = "bashref" then specFields w
       else if op = "specseqagree" then
         match (splitBraces w).1 with
-        | [.brace true elems, .lit []] => if seqAgree elems then "true" else "false"
+        | [.brace true elems] => if seqAgree elems then "true" else "false"
         | _ => "notseq"
       else if op = "canon" then
-        let t := (splitBraces w).1
-        let t' := match t.reverse with
-          | .lit [] :: r => r.reverse
-          | _ => t
-        if canon t' && seqsAgree t' && noOv t' then "true" else "false"
+        let t' := (splitBraces w).1
+        if canon t' then "true" else "false"
       else "bad-op"
   | _ => "bad-op"
 
